@@ -186,10 +186,13 @@ def _split_tuple_assign(a):
     if len(a.targets) == 1 and isinstance(a.targets[0], (ast.Tuple, ast.List)) and isinstance(a.value, (ast.Tuple, ast.List)) \
             and len(a.targets[0].elts) == len(a.value.elts) and all(isinstance(t, ast.Name) for t in a.targets[0].elts):
         tn = {t.id for t in a.targets[0].elts}
-        used = {x.id for v in a.value.elts for x in ast.walk(v) if isinstance(x, ast.Name)}
-        if not (tn & used):
-            return [ast.copy_location(ast.Assign(targets=[ast.Name(id=t.id, ctx=ast.Store())], value=v), a)
-                    for t, v in zip(a.targets[0].elts, a.value.elts)]
+        pairs = list(zip(a.targets[0].elts, a.value.elts))
+        # a position that re-binds a name to itself (`wit` in `ret, wit = PrivVal(0), wit`) is a no-op and is dropped
+        live = [(t, v) for t, v in pairs if not (isinstance(v, ast.Name) and v.id == t.id)]
+        used = {x.id for _t, v in live for x in ast.walk(v) if isinstance(x, ast.Name)}
+        if not ({t.id for t, _v in live} & used) and len({t.id for t, _v in pairs}) == len(pairs):
+            return [ast.copy_location(ast.Assign(targets=[ast.Name(id=t.id, ctx=ast.Store())], value=v), a) for t, v in live] or \
+                [ast.copy_location(ast.Pass(), a)]
     return [a]
 
 
